@@ -3,6 +3,21 @@ import json, os
 V = os.path.dirname(os.path.dirname(os.path.abspath(__file__)))
 
 CHECKS = {
+ "C02": dict(
+   technique="TLA+ state machine of UTPM objects on an explicit heap (UTPMachine over TPS/NDA), TLC bounded-exhaustive + simulation; every TLC behaviour replayed into algopy with the full projected heap compared after each action",
+   text="TLC enumerates every behaviour (sequence of binary/reflected/in-place operators, integer powers, unary ops with UTPM, array and scalar operands under NumPy broadcasting, incl. constant arrays with more axes than the polynomial and leading extent P) of the bounded UTPMachine instance, checks the design invariants on it, and each behaviour is executed on real UTPM objects: after every action all objects must equal the spec state (exact rationals, shapes, memory sharing). The algebra itself (ring laws, division, constants as degree-0 polynomials) is model-checked in MC_TPS.",
+   note="bounded shapes (<=3 axes, extents <=4), D<=5, P<=2, behaviours of length <=2 exhaustive (<=4 simulated); values on a rational grid; complex operands only through the complex instance of the machine",
+   design="3.4, 4 (C02)"),
+ "C13": dict(
+   technique="TLA+ heap/view model (NDA: cell lists, basic indexing, permutation, reshape, broadcasting) + UTPMachine shape actions; TLC behaviours replayed with memory-sharing comparison by byte address and per-slice NumPy cross-check",
+   text="For every behaviour of shape actions TLC generates (all index expressions of the catalogue: ints, negative ints, slices with positive/negative steps, Ellipsis, newaxis, tuples; UTPM/array/scalar right-hand sides; transpose; reshape; sum over any axis), the real objects must have the spec's shape, values and exactly the spec's memory sharing after each action, and each operation must equal the NumPy operation on every coefficient slice.",
+   note="bounded shapes and catalogue of index expressions; reshape only where NumPy's view/copy choice is unambiguous; tile/diag/triu/tril/trace/symvec/fft are covered by the extended machine actions listed in DESIGN",
+   design="3.3, 3.4, 4 (C13)"),
+ "C14": dict(
+   technique="TLA+ action property Frame on UTPMachine (no non-in-place action changes an existing cell); aliased/in-place forms defined from the pre-state; TLC behaviours mixing views and in-place operators replayed with every operand compared after each action",
+   text="TLC checks Frame and ViewSemantics on all behaviours of the bounded instance; every behaviour (x op x, x op= x, x op= view(x), x op= x.T, assignments between overlapping views, all four operators, D<=4, P<=2) is replayed and after each action every object, operands included, must equal the spec state.",
+   note="bounded behaviours (length <=2 exhaustive, <=4 simulated); operand immutability of elementary functions is checked in the C01 replay, of linear algebra in C07/C08",
+   design="3.4, 4 (C14)"),
  "C01": dict(
    technique="TLA+ spec of Q[t]/(t^D) (composition by defining identity); TLC proves the ring/ODE/Horner/truncation theorems and enumerates all coefficient patterns with their integer C-matrix; replay into algopy with mpmath Taylor coefficients as the only transcendental input",
    text="For every function, entry point, base point from a grid, P, shape and EVERY coefficient pattern over {-2..2}^(D-1) (plus sparse patterns to D=6/10 and complex data), each output coefficient of algopy equals sum_k C[d][k] F_k where C is computed by the TLA+ spec (exact integers) and F_k = f^(k)(x0)/k! comes from mpmath at 40 digits; the spec's algebra itself is model-checked (ODE theorem y' = f'(x) x', Horner, ring laws, truncation).",
